@@ -1,0 +1,20 @@
+//! `verif-hooks` only: read-only view of the two backing tables.
+
+use super::{RawTable, R};
+
+pub(crate) const VERIF_R: usize = R;
+
+impl<T> RawTable<T> {
+    pub(crate) fn verif_state(&self) -> crate::verif::State {
+        crate::verif::State {
+            main_len: self.table.len(),
+            main_capacity: self.table.capacity(),
+            main_buckets: self.table.buckets(),
+            old: self.leftovers.as_ref().map(|lo| crate::verif::OldState {
+                len: lo.table.len(),
+                buckets: lo.table.buckets(),
+                cursor_remaining: lo.items.len(),
+            }),
+        }
+    }
+}
